@@ -81,13 +81,24 @@ Fixpoint strings (alpha : list N) (n : nat) : list (list N) :=
   | S k => flat_map (fun c => map (cons c) (strings alpha k)) alpha
   end.
 
+(* the literal read by the real parser in a syntactic position: errors are parse errors there,
+   so only acceptance and the accepted value are compared *)
+Definition classify_ctx (input : list N) (o : obs) : N :=
+  if negb (spec_holds input o) then 2
+  else match o, model_obs input with
+       | OErr _ _, OErr _ _ => 0
+       | _, m => if obs_eqb o m then 0 else 1
+       end.
+
 Inductive case :=
+| InCtx (input : list N) (o : obs)
 | Single (input : list N) (o : obs)
 | Block (alpha : list N) (prefix : list N) (n : nat) (os : list obs).
   (* every string prefix ++ s, s over alpha of length n, in `strings` order *)
 
 Definition classify (c : case) : list N :=
   match c with
+  | InCtx i o => [classify_ctx i o]
   | Single i o => [classify1 i o]
   | Block alpha pre n os =>
       let ss := strings alpha n in
